@@ -150,14 +150,13 @@ def generate(repo):
         v = assign_of(body[2], 'n')
         if not (isinstance(v, ast.Attribute) and is_name(v.value, 'signal') and v.attr == 'size'):
             raise P.Unrecognised('n = signal.size expected')
-        for k, (name, e) in enumerate([('istart', {'width': 'width'}), ('iend', {'width': 'width', 'n': 'n'}),
-                                       ('w2', {'width': 'width'})]):
+        e = {'width': 'width', 'n': 'n', 'owidth': 'owidth'}     # every name in scope at that point
+        for k, name in enumerate(['istart', 'iend', 'w2']):
             v = assign_of(body[3 + k], name)
             if v is None:
                 raise P.Unrecognised('%s assignment expected' % name)
-            args = 'n width' if name == 'iend' else 'width'
             out.append('(* source line %d *)' % body[3 + k].lineno)
-            out.append('Definition smooth_%s (%s : Z) : Z := %s.\n' % (name, args, zexpr(v, e)))
+            out.append('Definition smooth_%s (n width owidth : Z) : Z := %s.\n' % (name, zexpr(v, e)))
         v = assign_of(body[6], 's')
         if not (isinstance(v, ast.Call) and isinstance(v.func, ast.Attribute) and v.func.attr == 'copy'
                 and is_name(v.func.value, 'signal')):
